@@ -33,6 +33,10 @@ def adv_ops(rng, cap):
             continue
         ops.append("lenav " + hx(rnd_bytes(rng, total)))
         ops.append("advl " + split_chunks(rng, total))
+        if total >= 4 and delta in (-3, 0):
+            ch = split_chunks(rng, total)
+            if "," in ch and "[]" not in ch:
+                ops.append("advlm " + ch)      # the same list of bytearrays advertised twice
         if total >= 3 or total == 0:
             n = max(0, total - 2)
             ops.append(f"adv {hx(rnd_bytes(rng, n))} {rng.choice([0xFF, 0x16, 0x09, 0x1FF, 0])}")
@@ -252,6 +256,17 @@ class C18(PropCheck):
                         {"class": "whitening-channel-mismatch", "impl": io[:300]}))
                     break
                 mac, name, dbm = unhx(st[5]), (None if st[4] == "none" else unhx(st[4])), st[3] == "1"
+                if o == "advlm":
+                    res, _, lst = r.partition(" list=")
+                    if lst != op[1]:
+                        finds.append(Finding(line, f"{where}: advertise() modified the caller's list of chunks: {op[1]} became {lst}",
+                                             {"class": "caller-list-modified"}))
+                        break
+                    if res.startswith("sent=") and len(set(res[5:].split(","))) != 1:
+                        finds.append(Finding(line, f"{where}: advertising the same list twice sent two different packets: {res[5:]}",
+                                             {"class": "caller-list-modified"}))
+                        break
+                    continue
                 if o in ("adv", "advl", "lenav"):
                     if o == "adv":
                         buf = unhx(op[1])
